@@ -289,6 +289,272 @@ theorem _root_.KafVerif.C28.names_key_coalescing_violates :
                 { err := 0, name := some "b", tid := .lit 2, internal := false, parts := [] }] },
    some [{ name := none, tid := .lit 1 }], some [{ name := none, tid := .lit 2 }], "", 9092, by decide, by decide⟩
 
+/-! ### sessions on one proxy: no stale cross-request state -/
+
+theorem runSessionWith_get (load : List (TopicId × String) → Meta → Option (List ReqTopic) → Meta)
+    (host : String) (port : Int) (st : Session) (pre post : List SOp) (op : SOp) :
+    (runSessionWith load host port st (pre ++ op :: post))[pre.length]? =
+      some (replyWith load host port (pre.foldl advance st) op) := by
+  induction pre generalizing st with
+  | nil => simp [runSessionWith]
+  | cons a pre ih => simp [runSessionWith, ih]
+
+theorem advance_snap (st : Session) (op : SOp) :
+    (advance st op).snap = currentSnap st.snap [op] := by
+  cases op with
+  | setSnapshot m => rfl
+  | warm => rfl
+  | resolve id => simp only [advance, currentSnap]; split <;> rfl
+  | request r => rfl
+
+theorem foldl_advance_snap (st : Session) (ops : List SOp) :
+    (ops.foldl advance st).snap = currentSnap st.snap ops := by
+  induction ops generalizing st with
+  | nil => rfl
+  | cons op ops ih =>
+    rw [List.foldl_cons, ih, advance_snap]
+    cases op <;> rfl
+
+/-- **C28 (sessions: the reply comes from the CURRENT snapshot).**  For EVERY history of one proxy
+— any interleaving of snapshot changes, cache refreshes (`refreshMetadataCache`,
+`currentBackends`), `resolveTopicID` calls and earlier Metadata requests, from any starting
+state, with any ops still to come — the reply to a Metadata request is `handleMetadata` of the
+snapshot IN FORCE when the request arrives (the last `setSnapshot` before it) and of the request:
+exactly what a freshly started proxy answers.  Hence it names only the proxy and keeps the
+topology of the current snapshot (`expectedShapes`), whatever was cached earlier. -/
+theorem _root_.KafVerif.C28.session_reply_from_current_snapshot (st : Session) (pre post : List SOp)
+    (req : Option (List ReqTopic)) (host : String) (port : Int) :
+    (runSession host port st (pre ++ .request req :: post))[pre.length]? =
+      some (some (handleMetadata (currentSnap st.snap pre) req host port)) ∧
+    ∀ r, (runSession host port st (pre ++ .request req :: post))[pre.length]? = some (some r) →
+      onlyProxy r host port = true ∧
+      r.topics.map topicShape = expectedShapes (currentSnap st.snap pre) req := by
+  have h : (runSession host port st (pre ++ .request req :: post))[pre.length]? =
+      some (some (handleMetadata (currentSnap st.snap pre) req host port)) := by
+    unfold runSession
+    rw [runSessionWith_get]
+    simp [replyWith, handleMetadata, foldl_advance_snap]
+  refine ⟨h, ?_⟩
+  intro r hr
+  rw [h] at hr
+  cases hr
+  exact ⟨KafVerif.C28.only_proxy _ req host port, KafVerif.C28.topology_kept _ req host port⟩
+
+/-- **C28 (sessions: the name cache is not consulted).**  Two proxies that hold the same snapshot
+but arbitrary, different topic-name caches answer every history identically. -/
+theorem _root_.KafVerif.C28.session_ignores_cache (s : Meta) (c c' : List (TopicId × String))
+    (ops : List SOp) (host : String) (port : Int) :
+    runSession host port ⟨s, c⟩ ops = runSession host port ⟨s, c'⟩ ops := by
+  suffices h : ∀ (ops : List SOp) (st st' : Session), st.snap = st'.snap →
+      runSession host port st ops = runSession host port st' ops from h ops _ _ rfl
+  intro ops
+  induction ops with
+  | nil => intros; rfl
+  | cons op ops ih =>
+    intro st st' hs
+    unfold runSession at ih ⊢
+    simp only [runSessionWith]
+    congr 1
+    · cases op <;> simp [replyWith, hs]
+    · apply ih
+      rw [advance_snap, advance_snap, hs]
+
+/-! #### the seeded class: by-id requests translated through the name cache -/
+
+theorem storeView_tid_ne_zero (s : Meta) (t : Topic) (h : t ∈ (storeView s).topics) : t.tid ≠ .zero := by
+  simp only [storeView, List.mem_map] at h
+  rcases h with ⟨u, _, rfl⟩
+  simp only [normTopic]
+  split <;> simp_all
+
+theorem cachedNames_agree (cache : List (TopicId × String)) (s : Meta) (ha : cacheAgrees cache s)
+    (ts : List ReqTopic) (names : List String) (h : cachedNames cache ts = some names) :
+    filterTopics (storeView s).topics names = byId (storeView s).topics ts ∧ (ts ≠ [] → names ≠ []) := by
+  induction ts generalizing names with
+  | nil =>
+    simp only [cachedNames, Option.some.injEq] at h
+    subst h
+    exact ⟨rfl, fun h => absurd rfl h⟩
+  | cons t ts ih =>
+    unfold cachedNames at h
+    split at h
+    · rename_i n ns hn hns
+      cases h
+      obtain ⟨x, hx1, hx2⟩ := ha _ _ hn
+      have hx := lastWith_some hx1
+      have hne : t.tid ≠ .zero := by
+        have h1 : x.tid = t.tid := by simpa using hx.2
+        rw [← h1]
+        exact storeView_tid_ne_zero s x hx.1
+      have := (ih ns hns).1
+      refine ⟨?_, by simp⟩
+      simp only [filterTopics, List.map_cons] at this ⊢
+      simp only [byId, List.filter_cons, bne_iff_ne, ne_eq, hne, not_false_eq_true, ↓reduceIte,
+        List.map_cons, hx1, hx2]
+      rw [this]
+      rfl
+    · cases h
+
+/-- **Cache translation is sound when the cache agrees with the current snapshot.** -/
+theorem _root_.KafVerif.C28.name_cache_sound_if_agrees (cache : List (TopicId × String)) (s : Meta)
+    (ha : cacheAgrees cache s) (req : Option (List ReqTopic)) :
+    loadViaNameCache cache s req = loadMetadata s req := by
+  cases req with
+  | none => rfl
+  | some ts =>
+    simp only [loadViaNameCache, loadMetadata]
+    split
+    · rfl
+    · rename_i hid
+      split
+      · rename_i names hn
+        have hts : ts ≠ [] := by
+          intro h; subst h; simp [scanReq] at hid
+        obtain ⟨h1, h2⟩ := cachedNames_agree cache s ha ts names hn
+        have hne : names.isEmpty = false := by
+          cases names with
+          | nil => exact absurd rfl (h2 hts)
+          | cons _ _ => rfl
+        have h1' := h1
+        simp only [storeView] at h1'
+        simp [storeMetadata, hne, h1', storeView]
+      · rfl
+
+/-- … and ONLY then (for a cache without an entry for the zero id, which `updateTopicNames`
+never writes): if the translation gives the code's answer for every request, the cache agrees
+with the snapshot.  Together: the seeded shortcut is correct exactly as long as no cached topic
+was deleted, re-created under a new id, renamed or shadowed since the cache was filled. -/
+theorem _root_.KafVerif.C28.name_cache_sound_iff_agrees (cache : List (TopicId × String)) (s : Meta)
+    (hz : cacheLookup cache .zero = none) :
+    cacheAgrees cache s ↔ ∀ req, loadViaNameCache cache s req = loadMetadata s req := by
+  constructor
+  · exact fun ha req => KafVerif.C28.name_cache_sound_if_agrees cache s ha req
+  · intro h id n hc
+    have hid : id ≠ .zero := by
+      intro h0; subst h0; rw [hz] at hc; cases hc
+    have := h (some [{ name := none, tid := id }])
+    simp only [loadViaNameCache, loadMetadata, scanReq, ne_eq, hid, not_false_eq_true, ↓reduceIte,
+      Bool.not_true, Bool.false_eq_true, cachedNames, hc, storeMetadata, List.isEmpty_cons,
+      List.isEmpty_nil, filterTopics, List.map_cons, List.map_nil, byId, List.filter_cons,
+      bne_iff_ne, List.filter_nil, Meta.mk.injEq, List.cons.injEq, and_true, true_and] at this
+    cases h1 : lastWith (fun x => x.name == some n) (storeView s).topics with
+    | none =>
+      cases h2 : lastWith (fun x => x.tid == id) (storeView s).topics with
+      | none =>
+        simp only [h1, h2] at this
+        simp [UNKNOWN_TOPIC_OR_PARTITION, UNKNOWN_TOPIC_ID] at this
+      | some x =>
+        simp only [h1, h2] at this
+        have hx := lastWith_some h2
+        have hne := storeView_tid_ne_zero s x hx.1
+        rw [← this] at hne
+        exact absurd rfl hne
+    | some t =>
+      cases h2 : lastWith (fun x => x.tid == id) (storeView s).topics with
+      | none =>
+        simp only [h1, h2] at this
+        have ht := (lastWith_some h1).2
+        rw [this] at ht
+        simp at ht
+      | some x =>
+        simp only [h1, h2] at this
+        exact ⟨x, rfl, by rw [this]⟩
+
+theorem lastWith_unique {p : Topic → Bool} {l : List Topic} {t : Topic} (ht : t ∈ l) (hp : p t = true)
+    (hu : ∀ x ∈ l, p x = true → x = t) : lastWith p l = some t := by
+  cases h : lastWith p l with
+  | none => have := lastWith_none h t ht; simp [hp] at this
+  | some x => have := lastWith_some h; rw [hu x this.1 this.2]
+
+theorem cacheLookup_filterMap (f : Topic → Option (TopicId × String)) (l : List Topic) (id : TopicId) (n : String)
+    (h : cacheLookup (l.filterMap f) id = some n) : ∃ t ∈ l, f t = some (id, n) := by
+  induction l with
+  | nil => simp [cacheLookup] at h
+  | cons a l ih =>
+    simp only [List.filterMap_cons] at h
+    split at h
+    · rcases ih h with ⟨t, ht, hf⟩
+      exact ⟨t, List.mem_cons_of_mem _ ht, hf⟩
+    · rename_i b hb
+      obtain ⟨k, v⟩ := b
+      unfold cacheLookup at h
+      split at h
+      · rename_i x hx
+        cases h
+        rcases ih hx with ⟨t, ht, hf⟩
+        exact ⟨t, List.mem_cons_of_mem _ ht, hf⟩
+      · split at h
+        · rename_i hk
+          cases h
+          subst hk
+          exact ⟨a, List.mem_cons_self, hb⟩
+        · cases h
+
+/-- **A fresh cache is sound on a well-formed snapshot.**  Right after a refresh, and as long as
+the snapshot does not change, the cache agrees with a snapshot that lists no topic id and no
+topic name twice — so the shortcut is invisible to single requests against a fixed snapshot
+(why the earlier run, one snapshot per case and no refresh, could not see it). -/
+theorem _root_.KafVerif.C28.fresh_cache_agrees_on_wellformed_snapshot (s : Meta)
+    (hid : ∀ x ∈ (storeView s).topics, ∀ y ∈ (storeView s).topics, x.tid = y.tid → x = y)
+    (hname : ∀ x ∈ (storeView s).topics, ∀ y ∈ (storeView s).topics, x.name = y.name → x = y) :
+    cacheAgrees (cacheOf s) s := by
+  intro id n hc
+  obtain ⟨t, ht, hf⟩ := cacheLookup_filterMap _ _ id n hc
+  have hnm : t.name = some n := by
+    simp only [storeView, List.mem_map] at ht
+    rcases ht with ⟨u, _, rfl⟩
+    split at hf
+    · simp only [Option.some.injEq, Prod.mk.injEq] at hf
+      simp only [normTopic] at hf ⊢
+      rw [← hf.2]
+      simp
+    · cases hf
+  have htid : t.tid = id := by
+    split at hf
+    · simp only [Option.some.injEq, Prod.mk.injEq] at hf; exact hf.1
+    · cases hf
+  refine ⟨t, lastWith_unique ht (by simp [htid]) ?_, lastWith_unique ht (by simp [hnm]) ?_⟩
+  · intro x hx hp
+    exact hid x hx t ht (by rw [htid]; simpa using hp)
+  · intro x hx hp
+    exact hname x hx t ht (by rw [hnm]; simpa using hp)
+
+/-- The witness history: snapshot `a`, refresh the cache, snapshot `x`, one request. -/
+def staleHist (a x : Meta) (req : Option (List ReqTopic)) : List SOp :=
+  [.setSnapshot a, .warm, .setSnapshot x, .request req]
+def staleSt0 : Session := ⟨{ brokers := [], controller := 0, cluster := none, topics := [] }, []⟩
+/-- name, topic id, error code and number of partitions of a shape -/
+def shapeKey (x : Shape) : Option String × TopicId × Int × Nat := (x.1, x.2.1, x.2.2.1, x.2.2.2.2.length)
+/-- … of the topics in the reply to op 3 (the request) of a run. -/
+def staleShapes (out : List (Option Meta)) : Option (List (Option String × TopicId × Int × Nat)) :=
+  (out[3]?.join).map fun r => r.topics.map fun t => shapeKey (topicShape t)
+
+/-- **The seeded change C28-r2-1 violates the property:** warm the cache on a snapshot with topic
+`orders` (id 7), delete the topic, ask for id 7.  The code answers UNKNOWN_TOPIC_ID under the
+requested id and no name (= `expectedShapes` of the CURRENT snapshot); the cache-translating
+proxy answers UNKNOWN_TOPIC_OR_PARTITION, names the deleted topic and loses the id.  Second
+witness: the topic is re-created under id 8 — the client that asked for id 7 must be told
+UNKNOWN_TOPIC_ID and is handed topic id 8 with its partition. -/
+theorem _root_.KafVerif.C28.stale_name_cache_violates :
+    ∃ (a b b' : Meta) (req : Option (List ReqTopic)) (host : String) (port : Int),
+      -- deleted
+      (expectedShapes b req).map shapeKey = [(none, .lit 7, UNKNOWN_TOPIC_ID, 0)] ∧
+      staleShapes (runSession host port staleSt0 (staleHist a b req)) = some ((expectedShapes b req).map shapeKey) ∧
+      staleShapes (runSessionCached host port staleSt0 (staleHist a b req)) =
+        some [(some "orders", .zero, UNKNOWN_TOPIC_OR_PARTITION, 0)] ∧
+      -- re-created under a new id
+      (expectedShapes b' req).map shapeKey = [(none, .lit 7, UNKNOWN_TOPIC_ID, 0)] ∧
+      staleShapes (runSession host port staleSt0 (staleHist a b' req)) = some ((expectedShapes b' req).map shapeKey) ∧
+      staleShapes (runSessionCached host port staleSt0 (staleHist a b' req)) = some [(some "orders", .lit 8, 0, 1)] :=
+  ⟨{ brokers := [], controller := 0, cluster := none,
+     topics := [{ err := 0, name := some "orders", tid := .lit 7, internal := false, parts := [] }] },
+   { brokers := [], controller := 0, cluster := none, topics := [] },
+   { brokers := [], controller := 0, cluster := none,
+     topics := [{ err := 0, name := some "orders", tid := .lit 8, internal := false,
+                  parts := [{ err := 0, id := 0, leader := 3, epoch := 4, replicas := [3], isr := [3], offline := [] }] }] },
+   some [{ name := none, tid := .lit 7 }], "", 9092,
+   by decide, by decide, by decide, by decide, by decide, by decide⟩
+
 /-! ### the code as found -/
 
 /-- **The unfixed code violates `only_proxy`:** a snapshot topic that carries an error code
@@ -311,5 +577,13 @@ example : ∃ v : Nat, v ≥ 1 := ⟨12, by omega⟩
 example : ∃ (s : Meta) (id : TopicId) (t : Topic), lastWith (fun t => t.tid == id) (storeView s).topics = some t :=
   ⟨{ brokers := [], controller := 0, cluster := none,
      topics := [{ err := 0, name := none, tid := .lit 4, internal := false, parts := [] }] }, .lit 4, _, rfl⟩
+/-- Non-vacuity of `cacheAgrees` / the zero-key hypothesis / the well-formedness hypotheses: a warm
+cache with an entry, agreeing with its snapshot, without a zero key. -/
+example : ∃ s : Meta, cacheLookup (cacheOf s) (.lit 4) = some "t" ∧ cacheLookup (cacheOf s) .zero = none ∧
+    cacheAgrees (cacheOf s) s := by
+  refine ⟨{ brokers := [], controller := 0, cluster := none,
+            topics := [{ err := 0, name := some "t", tid := .lit 4, internal := false, parts := [] }] },
+          by decide, by decide, ?_⟩
+  apply KafVerif.C28.fresh_cache_agrees_on_wellformed_snapshot <;> simp [storeView]
 
 end KafVerif.ProxyMetadata
